@@ -4,7 +4,7 @@ import MpVerif.C03.ModelRead
 
 * `events cd m o`   : the notifications the reader is *proved* to deliver for `writeNL m o` (Props: `C03_roundtrip`);
   it is computed from the model alone and keeps the quirks of the code (±DBL_MAX bounds become ±∞,
-  `ampl_vbtol` goes through `%.g`, a text header without flags and arith kind reads back the defaults).
+  a text header without flags and arith kind reads back the defaults; `ampl_vbtol` goes through `cd.vb` = `%.17g`/strtod).
 * `intended m o`    : the same without the quirks: every item and number as fed.
 * `WellFormed m`    : the feeder contract, as a decidable predicate.
 * `Ev.toLine` etc.  : the canonical text form shared with the C++ harness.
@@ -251,12 +251,9 @@ def sparseOk (ub : Nat) : List (Nat × α) → Bool
   | [] => true
   | (i, _) :: l => decide (i < ub) && sparseOk ub l
 
-def intsOk (o : Opts) : List (Nat × Int) → Bool
-  | [] => true
-  | (_, v) :: l => (o.binary || v != -2147483648) && intsOk o l
-def sufOk (h : Hdr) (o : Opts) (s : Suffix) : Bool :=
+def sufOk (h : Hdr) (_o : Opts) (s : Suffix) : Bool :=
   match s.vals with
-  | .ints l => decide (s.kind < 4) && decide (l.length ≤ sufItems h s.kind) && sparseOk (sufItems h s.kind) l && intsOk o l
+  | .ints l => decide (s.kind < 4) && decide (l.length ≤ sufItems h s.kind) && sparseOk (sufItems h s.kind) l
   | .dbls l => decide (4 ≤ s.kind ∧ s.kind < 8) && decide (l.length ≤ sufItems h s.kind) && sparseOk (sufItems h s.kind) l
 def sufsOk (h : Hdr) (o : Opts) : List Suffix → Bool
   | [] => true
